@@ -15,7 +15,9 @@ RULE = ('server message sequences over a 40-letter alphabet (CAP LS/ACK/NAK/NEW/
         'advertise / NAK-or-withhold / DEL / NEW-or-LS sequences; "credentials only after ACK sasl" and "CAP END only when nothing is outstanding" '
         'are judged against the server\'s own books (requested = the CAP REQ lines seen, ACKed/NAKed = its own messages; diffed against the model '
         'upd_ack), never the bot\'s sets; the three capability sets must be distinct objects after every step; sequences and games on second / '
-        'third connections (after resets). '
+        'third connections (after resets); the fast queue is part of every compared state, TAKE events drain it through the real takeMsg, '
+        'and batches of several server lines followed by ERROR / driver reset check that nothing queued before a reset is handed to the driver '
+        'after it and that the first line of a connection is CAP LS. '
         'Liveness: lock-step games of the real Irc against the conformant-server strategy of coq/C08/Model.v (python mirror, diffed against the '
         'extracted strategy on every history) for every configuration (incl. PLAIN responses of 396/400/404/796/800/804 base64 characters) x '
         'fixed and random servers/choices, with 0-3 nick rejections (432/433/437) placed before the CAP LS reply, between LS and ACK, during the '
@@ -65,6 +67,11 @@ def is_secure(secure):
     """the property's notion: the policy arrived over a verified TLS connection"""
     ssl, anyval, force = transport(secure)
     return force or (ssl and anyval)
+
+
+def line_of(msg):
+    """a queued / taken IrcMsg in the normalised form of the output log"""
+    return [0, msg.command, list(msg.args) if msg.command in ('CAP', 'AUTHENTICATE', 'PONG') else []]
 
 
 class StubDriver:
@@ -164,7 +171,9 @@ class Rig:
                 list(irc.sasl_next_mechanisms), wire.opt(irc.sasl_current_mechanism), bool(irc.sasl_authenticated),
                 dec, bool(irc.afterConnect), bool(irc.zombie),
                 # the nick generator: alternates left; the configured nick itself has already been proposed
-                len(irc.alternateNicks), self.base_nick in irc.triedNicks]
+                len(irc.alternateNicks), self.base_nick in irc.triedNicks,
+                # irc.fastqueue: the lines queued for the driver and not taken yet
+                [line_of(x) for x in irc.fastqueue]]
 
     def feed(self, m):
         """m: wire-form message; returns (outputs, swallowed exception name or None)"""
@@ -200,13 +209,13 @@ def b64_bits(snapshot_dec, args):
 
 
 def canon_state(s):
-    return [s[0], s[1], sorted(s[2]), sorted(s[3]), sorted(s[4]), s[5], s[6], s[7], s[8], s[9], s[10], s[11], bool(s[12])]
+    return [s[0], s[1], sorted(s[2]), sorted(s[3]), sorted(s[4]), s[5], s[6], s[7], s[8], s[9], s[10], s[11], bool(s[12]), s[13]]
 
 
 def dec_state(v):
     return [v[0], [[wire.s(e[0]), wire.opt(wire.o(e[1], wire.s))] for e in v[1]], sorted(wire.ls(v[2])), sorted(wire.ls(v[3])),
             sorted(wire.ls(v[4])), wire.ls(v[5]), wire.opt(wire.o(v[6], wire.s)), bool(v[7]),
-            [[wire.ls(d[0]), bool(d[1])] for d in v[8]], bool(v[9]), bool(v[10]), v[11], bool(v[12])]
+            [[wire.ls(d[0]), bool(d[1])] for d in v[8]], bool(v[9]), bool(v[10]), v[11], bool(v[12]), dec_out(v[13])]
 
 
 def dec_out(v):
@@ -284,6 +293,8 @@ class Trace:
         self.new_conn()
         self.fails = []
         self.adv = set()
+        self.pending = None      # lines queued on the CURRENT connection and not yet taken (set from the rig at the first step)
+        self.fresh = True        # nothing was taken yet on this connection
 
     def new_conn(self):
         self.ends = 0
@@ -368,6 +379,30 @@ class Trace:
                 self.fail(idx, 'reset-not-fresh', 'after the reconnect ls=%r req=%r ack=%r nak=%r' % (after[1], after[2], after[3], after[4]))
             if m[0] == 5:
                 self.new_conn()
+
+    def queued(self, m, out):
+        """book-keeping of what the driver may legitimately be handed: a reset drops everything queued before it"""
+        lines = lambda os: [o for o in os if o[0] == 0]
+        marks = [i for i, o in enumerate(out) if o[0] in (1, 2)]
+        if m[0] == 5:
+            self.pending, self.fresh = lines(out), True
+        elif marks:
+            self.pending, self.fresh = lines(out[marks[-1] + 1:]), True
+        else:
+            self.pending = self.pending + lines(out)
+
+    def take(self, idx, taken):
+        """the driver takes everything that is queued (takeMsg until None)"""
+        if taken != self.pending:
+            stale = [t for t in taken if t not in self.pending]
+            self.fail(idx, 'stale-line-after-reset' if stale else 'queue-mismatch',
+                      'the driver was handed %r; queued on this connection and not yet sent: %r%s'
+                      % (taken, self.pending, ' -- lines of a previous connection survived the reset' if stale else ''))
+        if self.fresh and taken and taken[0] != [0, 'CAP', ['LS', '302']]:
+            self.fail(idx, 'first-line-not-cap-ls', 'the first line sent on a new connection is %r, not CAP LS 302' % (taken[0],))
+        if taken:
+            self.fresh = False
+        self.pending = []
 
     def is_credential(self, args, rig):
         return bool(args) and args[0] in rig.cred_chunks and rig.cfg['user'] != '' and rig.irc is not None and args[0] != '+'
@@ -530,6 +565,18 @@ def run_sequence(ctx, mods, cfgi, secure, seq, model=True, kind='seq', oracle=No
                 m = ack_all(rig)
                 if m is None:
                     continue
+            if tr.pending is None:
+                tr.pending = [line_of(x) for x in rig.irc.fastqueue]
+            if m == 'TAKE':
+                taken = []
+                while len(taken) < 500:
+                    x = rig.irc.takeMsg()
+                    if x is None:
+                        break
+                    taken.append(line_of(x))
+                ctx.case('%s-TAKE' % kind, {'cfg': cfgi, 'taken': taken}, nontrivial=False)
+                tr.take(idx, taken)
+                continue
             before = rig.snapshot()
             wm = list(m)
             if m[0] == 1:
@@ -539,6 +586,7 @@ def run_sequence(ctx, mods, cfgi, secure, seq, model=True, kind='seq', oracle=No
             after = rig.snapshot()
             steps.append((rig.wcfg, before, wm, after, out, exc))
             tr.step(idx, m, before, after, out, rig)
+            tr.queued(m, out)
             if game:
                 game.observe(out, after)
             if oracle:
@@ -599,12 +647,35 @@ def gen_del_seq(rng):
     return seq
 
 
+def gen_batch_seq(rng):
+    """several server lines in ONE read batch (no takeMsg in between), the link goes away, then the driver takes what is queued"""
+    seq = ['TAKE'] if rng.random() < 0.7 else []
+    for _ in range(rng.randint(1, 3)):
+        seq.append([0, ['*', 'LS', rng.choice(['sasl batch', 'sasl', 'batch away-notify', 'echo-message labeled-response'])]])
+        if rng.random() < 0.5:
+            seq.append('TAKE')
+        seq.append(rng.choice(['ACKALL', [0, ['*', 'NAK', 'sasl batch']], [0, ['*', 'ACK', 'sasl']]]))
+        if rng.random() < 0.4:
+            seq.append('TAKE')
+        if rng.random() < 0.6:
+            seq.append([1, ['+']])
+        if rng.random() < 0.3:
+            seq.append([2, rng.choice([903, 904]), ['n', 'x']])
+        seq.append(rng.choice([[3, ['Closing link: x']], [5], [3, ['Reconnecting too fast']], [0, ['*', 'ACK', 'zzz']], [0, ['*', 'LS', 'sts']]]))
+        if rng.random() < 0.8:
+            seq.append('TAKE')
+    seq.append('TAKE')
+    return seq
+
+
 def gen_seq(rng):
     n = rng.randint(3, 14)
     seq = []
     for _ in range(n):
         r = rng.random()
-        if r < 0.2:
+        if r < 0.08:
+            seq.append('TAKE')
+        elif r < 0.2:
             seq.append('ACKALL')
         elif r < 0.35:     # directed: advertise / withdraw single wanted capabilities at any time
             seq.append([0, ['*', rng.choice(['LS', 'NEW', 'NEW', 'DEL', 'DEL', 'ACK', 'NAK']),
@@ -632,10 +703,12 @@ def sequences(ctx):
                 continue
             for ci in (cfgs if n < 2 else [(t[0] + t[-1]) % len(CONFIGS)]):
                 out.append((ci, (t[0] + ci) % 2 == 0, [small[i] for i in t], 'exhaustive-len%d' % n))
-    for _ in range(ctx.n(2500)):
+    for _ in range(ctx.n(2100)):
         out.append((rng.randrange(len(CONFIGS)), rng.random() < 0.5, gen_seq(rng), 'random'))
     for _ in range(ctx.n(300)):
         out.append((rng.randrange(len(CONFIGS)), True, gen_del_seq(rng), 'directed-del'))
+    for _ in range(ctx.n(300)):
+        out.append((rng.randrange(len(CONFIGS)), True, gen_batch_seq(rng), 'batch-then-disconnect'))
     # lock-step games against a protocol-conformant server (the strategy of coq/C08/Model.v), every configuration:
     # ACK everything + SASL succeeds / NAK everything, every mechanism fails / 908 then 904, then success / no CAP support
     for ci in cfgs:
@@ -665,6 +738,13 @@ def sequences(ctx):
 
 
 CORPUS = [
+    # one read batch: AUTHENTICATE + and ERROR :Closing link with no takeMsg in between: the queued credentials must not be the first
+    # thing sent on the next connection; CAP ACK then ERROR: no stale CAP END ahead of CAP LS
+    {'cfg': 1, 'secure': True, 'seq': ['TAKE', [0, ['*', 'LS', 'sasl batch']], 'TAKE', [0, ['*', 'ACK', 'batch sasl']], 'TAKE', [1, ['+']],
+                                       [3, ['Closing link: x']], 'TAKE']},
+    {'cfg': 0, 'secure': True, 'seq': ['TAKE', [0, ['*', 'LS', 'batch']], 'TAKE', [0, ['*', 'ACK', 'batch']], [3, ['Closing link: x']], 'TAKE',
+                                       [0, ['*', 'LS', 'batch']], 'ACKALL', 'TAKE']},
+    {'cfg': 1, 'secure': True, 'seq': [[0, ['*', 'LS', 'sasl']], [0, ['*', 'ACK', 'sasl']], [5], 'TAKE']},
     # a second (and third) connection: reset, then a server that NAKs the request containing sasl / answers it piecewise
     {'cfg': 1, 'secure': True, 'seq': [[5], [0, ['*', 'LS', 'sasl batch']], [0, ['*', 'NAK', 'batch sasl']], [1, ['+']], [2, 376, ['n', 'end']]]},
     {'cfg': 1, 'secure': True, 'seq': [[0, ['*', 'LS', 'sasl batch']], 'ACKALL', [5], [5], [0, ['*', 'LS', 'sasl batch multi-prefix']],
